@@ -29,7 +29,7 @@ def srStep (pref : Pref) (kn : List Nat) (st : SearchSt) (eqID : Nat) :
     Except Err (Sum SearchSt Nat) :=
   match pref with
   | .stored p =>
-    if st.i > kn.length then .error (.panic "slice bounds out of range: key[i>>3:]") else
+    if st.i / 2 > kn.length / 2 then .error (.panic "slice bounds out of range: key[i>>3:]") else
     match cmpUpto (kn.drop (st.i - st.i % 2)) p with
     | .eq => .ok (.inr (st.i - st.i % 2 + p.length))
     | .lt => .ok (.inl { st with rID := some eqID, eqID := none })
@@ -90,7 +90,7 @@ theorem srStep_prefOf (opt : Opt) (ks kn : List Nat) (st : SearchSt) (j fb ws : 
   · have : ¬ st.i > kn.length := by omega
     simp only [srStep, this, if_false]; congr; omega
   · split
-    · have hfl : ¬ st.i > kn.length := by omega
+    · have hfl : ¬ st.i / 2 > kn.length / 2 := by omega
       have he : st.i - st.i % 2 ≤ ws := by omega
       have hplen : (storedPrefix ks st.i ws).length = ws - (st.i - st.i % 2) := by
         simp only [storedPrefix, List.length_drop, List.length_take]; omega
@@ -156,11 +156,16 @@ theorem srBranch_go (v : View) (kn : List Nat) (fuel : Nat) (r : InnerRec) (st :
 
 /-! ### labels, ranks, leaf tails (as in the `GetID` descent) -/
 
-theorem labelIdxOfKey_eq_labelAt (kn : List Nat) (i : Nat) (big : Bool) :
+theorem labelIdxOfKey_eq_labelAt (kn : List Nat) (i : Nat) (big : Bool)
+    (hal : big = true → i % 2 = 0) :
     labelIdxOfKey kn i big = labelAt kn i big := by
   unfold labelIdxOfKey labelAt
   by_cases h : i < kn.length
-  · simp [h, List.getD_eq_getElem?_getD]
+  · cases big with
+    | false => simp [h, List.getD_eq_getElem?_getD]
+    | true =>
+      have h0 : i % 2 = 0 := hal rfl
+      simp [h, h0, List.getD_eq_getElem?_getD]
   · simp [h]
 
 theorem rankLabels_getElem (labels : List Nat) (hp : labels.Pairwise (· < ·)) (k : Nat)
@@ -351,7 +356,7 @@ theorem searchLoop_kept {keys : List Bytes} {keep : List Bool} {t : Trie1} {queu
       have hfc := F.fc
       have hch : leftChildID r (labelIdxOfKey (knOf keys m) ws r.big)
           = ((r.firstChild : Int) - 1 + k, true) := by
-        rw [labelIdxOfKey_eq_labelAt]
+        rw [labelIdxOfKey_eq_labelAt _ _ _ (fun hb => (F.big hb).1)]
         show leftChildID r (labelOf keys ws r.big m) = _
         rw [← hkl, leftChildID_of_label r F.pw k hk']
       have hL' := left_step F st.lID k hk' c hrun hL
